@@ -119,6 +119,8 @@ Fixpoint sv8_loop (fuel : nat) (st : sv8_state) (frame_type rest : list Z) : res
       | Raise _ => Raise EMutagen
       | Ok (frame_size, slen, rest) =>
         let data_size := frame_size - 2 - slen in
+        if data_size <? 0 then Raise EMutagen           (* a packet can't be smaller than its own header *)
+        else
         let next (r : result (sv8_state * list Z)) : result sv8_state :=
           match r with
           | Raise e => Raise e
@@ -130,7 +132,6 @@ Fixpoint sv8_loop (fuel : nat) (st : sv8_state) (frame_type rest : list Z) : res
           (if s8_sh st then Raise EMutagen else next (sv8_parse_sh st rest data_size))
         else if list_eqb frame_type key_RG then
           (if s8_rg st then Raise EMutagen else next (sv8_parse_rg st rest data_size))
-        else if data_size <? 0 then Raise ENotImpl      (* backward seek: not modelled (C04 finding) *)
         else next (Ok (st, zdrop_c data_size rest))
       end
   end.
